@@ -364,7 +364,32 @@ class MiniEval:
         return set(self._comp(n, lambda: self.ev(n.elt)))
 
     def ev_GeneratorExp(self, n):
-        return iter(self._comp(n, lambda: self.ev(n.elt)))
+        """Lazy, like Python: the outermost iterable is evaluated now, everything else at consumption
+        time against the *live* enclosing scope (late binding of loop variables is reproduced)."""
+        parent = self.env
+        first = iter(self.ev(n.generators[0].iter))
+        gens = n.generators
+
+        def sub(local):
+            env = dict(parent)
+            env.update(local)
+            return MiniEval(env)
+
+        def rec(gi, local):
+            g = gens[gi]
+            it = first if gi == 0 else iter(sub(local).ev(g.iter))
+            for x in it:
+                binder = MiniEval(dict(local))
+                binder._bind(g.target, x)
+                loc = binder.env
+                se = sub(loc)
+                if all(se.ev(c) for c in g.ifs):
+                    if gi + 1 < len(gens):
+                        yield from rec(gi + 1, loc)
+                    else:
+                        yield sub(loc).ev(n.elt)
+
+        return rec(0, {})
 
     def ev_DictComp(self, n):
         return dict(self._comp(n, lambda: (self.ev(n.key), self.ev(n.value))))
